@@ -21,7 +21,7 @@ MIN_OBLIGATIONS = 3
 D = 'tally.commands.discover.'
 sv = z3.StringVal
 MatchExpr = UF('suggest_match_expr', StrS, StrS)
-replace_all = UF('str.replace_all', StrS, StrS, StrS, StrS)
+replace_all = UF('py.str.replace', StrS, StrS, StrS, StrS)
 
 
 def h_rule_text(ctx):
